@@ -16,6 +16,9 @@ for line in open(os.path.join(V, "seeded", "README.md")):
 anch = p["anchors"]
 files = anch["files"] if isinstance(anch, dict) else sorted({a["file"] if isinstance(a, dict) else str(a) for a in anch})
 wt = f"/tmp/{tag}-{pid}"
+n = int(os.environ.get("MUTANTS", "2"))
+AIM = (f"Aim for TWO different mutants (different mechanism / different clause of the property), each as its own directory {wt}/MUTANT1 and {wt}/MUTANT2" if n == 2
+       else f"Produce ONE mutant (you have about 20 minutes: pick the most promising idea quickly), as the directory {wt}/MUTANT1")
 print(f"""You are given a scratch git worktree of the crossplane/crossplane repository and the text of one semantic property of that code base. Create your worktree first:  git -C /repo worktree add --detach {wt} HEAD   and work ONLY inside {wt}. Do not modify /repo itself. Do not read, list or use anything under /verif (it is off limits for this task).
 
 Environment: no network. Use  export GOFLAGS=-mod=mod GOPROXY=off GOSUMDB=off GOTOOLCHAIN=local  in every shell. The repository builds and its unit tests pass offline. Other people run builds on this machine: keep to at most 4 parallel build/test jobs (go test -p 4).
@@ -29,11 +32,11 @@ TASK: produce realistic changes ("mutants") to the crossplane source (non-test .
  (1) the tree still compiles (go build ./...),
  (2) the existing unit tests still pass, unedited (run at least the tests of every package you touched and of the packages that import them; say exactly what you ran),
  (3) the breakage needs something specific to manifest — a particular interleaving, a crash or API error at a particular point, a multi-step sequence of operations, an unusual input, or two cooperating sites that each look fine alone — NOT something ordinary use would expose at once. Think like a plausible but subtly wrong refactor or optimisation a maintainer could merge.
-Aim for TWO different mutants (different mechanism / different clause of the property), each as its own directory {wt}/MUTANT1 and {wt}/MUTANT2 containing:
+{AIM} containing:
   - patch.diff : `git diff` of the source change only (relative to the worktree HEAD), applying cleanly with `git apply` on a clean checkout of HEAD;
   - a demonstration: a new Go test file (copy it into the MUTANT dir as demo_test.go and say into which package directory it must be placed; its test function names must start with TestDemo) or a small program, which FAILS with the change applied and PASSES without it; it may use its own fakes/mocks; it must run offline; verify both directions yourself;
   - README.md : which clause of the property breaks, the mechanism, exactly what is needed for it to manifest, and the commands you ran (build, unit tests, demo with/without the patch) with their outcomes.
-Leave the worktree in the clean HEAD state at the end (patches only inside the MUTANT dirs) and do not remove it. Your final message: a short summary of the two mutants.
+Leave the worktree in the clean HEAD state at the end (patches only inside the MUTANT dirs) and do not remove it. Your final message: a short summary of what you produced. Never use `git stash` (the stash is shared between all worktrees of /repo and other people work in theirs); use `git diff > file` and `git checkout -- .` instead.
 
 ADDITIONAL GUIDANCE FOR THIS ROUND. Earlier rounds already produced the following changes for this property (clause broken: what it needed to manifest). Do NOT repeat these mechanisms or near variants of them:
 {chr(10).join(prev) if prev else '   (none)'}
